@@ -6,31 +6,33 @@ namespace ZapVerif.BwsConc
 theorem upd_other (f : Nat → CPc) {i j : Nat} (v : CPc) (h : j ≠ i) : upd f i v j = f j := by simp [upd, h]
 
 @[simp] theorem inCS_idle : inCS .idle = false := rfl
-@[simp] theorem holdsM_idle : holdsM .idle = false := rfl
+@[simp] theorem shutting_idle : shutting .idle = false := rfl
 @[simp] theorem inCS_wantW : inCS .wantW = false := rfl
-@[simp] theorem holdsM_wantW : holdsM .wantW = false := rfl
+@[simp] theorem shutting_wantW : shutting .wantW = false := rfl
 @[simp] theorem inCS_inW : inCS .inW = true := rfl
-@[simp] theorem holdsM_inW : holdsM .inW = false := rfl
+@[simp] theorem shutting_inW : shutting .inW = false := rfl
 @[simp] theorem inCS_wantS : inCS .wantS = false := rfl
-@[simp] theorem holdsM_wantS : holdsM .wantS = false := rfl
+@[simp] theorem shutting_wantS : shutting .wantS = false := rfl
 @[simp] theorem inCS_inS : inCS .inS = true := rfl
-@[simp] theorem holdsM_inS : holdsM .inS = false := rfl
-@[simp] theorem inCS_wantM : inCS .wantM = false := rfl
-@[simp] theorem holdsM_wantM : holdsM .wantM = false := rfl
+@[simp] theorem shutting_inS : shutting .inS = false := rfl
 @[simp] theorem inCS_wantT : inCS .wantT = false := rfl
-@[simp] theorem holdsM_wantT : holdsM .wantT = true := rfl
+@[simp] theorem shutting_wantT : shutting .wantT = false := rfl
 @[simp] theorem inCS_inT : inCS .inT = true := rfl
-@[simp] theorem holdsM_inT : holdsM .inT = true := rfl
+@[simp] theorem shutting_inT : shutting .inT = false := rfl
+@[simp] theorem inCS_waitFlushed : inCS .waitFlushed = false := rfl
+@[simp] theorem shutting_waitFlushed : shutting .waitFlushed = false := rfl
 @[simp] theorem inCS_waitDone : inCS .waitDone = false := rfl
-@[simp] theorem holdsM_waitDone : holdsM .waitDone = true := rfl
+@[simp] theorem shutting_waitDone : shutting .waitDone = true := rfl
 @[simp] theorem inCS_inTwait : inCS .inTwait = true := rfl
-@[simp] theorem holdsM_inTwait : holdsM .inTwait = true := rfl
+@[simp] theorem shutting_inTwait : shutting .inTwait = true := rfl
 @[simp] theorem inCS_wantF : inCS .wantF = false := rfl
-@[simp] theorem holdsM_wantF : holdsM .wantF = true := rfl
+@[simp] theorem shutting_wantF : shutting .wantF = true := rfl
 @[simp] theorem inCS_inF : inCS .inF = true := rfl
-@[simp] theorem holdsM_inF : holdsM .inF = true := rfl
-@[simp] theorem inCS_relM : inCS .relM = false := rfl
-@[simp] theorem holdsM_relM : holdsM .relM = true := rfl
+@[simp] theorem shutting_inF : shutting .inF = true := rfl
+@[simp] theorem inCS_closeF : inCS .closeF = false := rfl
+@[simp] theorem shutting_closeF : shutting .closeF = true := rfl
+@[simp] theorem inCS_retT : inCS .retT = false := rfl
+@[simp] theorem shutting_retT : shutting .retT = false := rfl
 
 /-! ### how a change of one client's pc acts on the quantified clauses -/
 
@@ -92,34 +94,54 @@ theorem lock_keep {α : Type} {c : Nat → α} {m : α} {inL : CPc → Bool} {f 
 
 theorem client_inj : ∀ a b, Holder.client a = Holder.client b → a = b := fun _ _ h => by injection h
 theorem free_ne_client : ∀ k, Holder.free ≠ Holder.client k := fun _ h => by cases h
-theorem some_inj : ∀ a b : Nat, some a = some b → a = b := fun _ _ h => by injection h
-theorem none_ne_some : ∀ k : Nat, (none : Option Nat) ≠ some k := fun _ h => by cases h
 
-/-- `pc` is one of the places of the shutting-down `Stop` after its critical section -/
+/-- at most one client satisfies `S`: preserved when the moved client satisfied it before, or nobody did -/
+theorem unique_upd {S : CPc → Bool} {f : Nat → CPc} {i : Nat} {v : CPc}
+    (hu : ∀ a b, S (f a) = true → S (f b) = true → a = b)
+    (hv : S v = true → S (f i) = true ∨ ∀ k, S (f k) = false) :
+    ∀ a b, S (upd f i v a) = true → S (upd f i v b) = true → a = b := by
+  have key : ∀ k, k ≠ i → S (f k) = true → S v = true → False := by
+    intro k hk hfk hsv
+    rcases hv hsv with h | h
+    · exact hk (hu k i hfk h)
+    · rw [h k] at hfk; cases hfk
+  intro a b ha hb
+  by_cases hai : a = i <;> by_cases hbi : b = i
+  · rw [hai, hbi]
+  · subst hai; rw [upd_other f v hbi] at hb; simp only [upd_same] at ha; exact absurd ha (fun h => key b hbi hb h)
+  · subst hbi; rw [upd_other f v hai] at ha; simp only [upd_same] at hb; exact absurd hb (fun h => key a hai ha h)
+  · rw [upd_other f v hai] at ha; rw [upd_other f v hbi] at hb; exact hu a b ha hb
+
+/-- `pc` is one of the places of the shutting-down `Stop` before its final flush has completed -/
 def W (pc : CPc) : Prop := pc = .waitDone ∨ pc = .wantF ∨ pc = .inF
 
-/-- the invariant of the repaired protocol (`lockedWait = false`) -/
+/-- the places whose occupant knows the syncer is stopped -/
+def R (pc : CPc) : Prop := shutting pc = true ∨ pc = .waitFlushed
+
+/-- the invariant of the repaired protocol (`lockedWait = false`; either value of `waitFlushed`) -/
 structure Inv (cfg : Cfg) (s : St) : Prop where
   mu_cl : ∀ i, s.mu = .client i ↔ inCS (s.cl i) = true
   mu_loop : s.mu = .loop ↔ s.loop = .inS
   no_bug : ∀ i, s.cl i ≠ .inTwait
-  smu_cl : cfg.serialStop = true → ∀ i, s.smu = some i ↔ holdsM (s.cl i) = true
   loop_init : s.loop = .none_ ↔ s.init = false
   stopped_init : s.stopped = true → s.init = true
   closed_eq : s.stopClosed = s.stopped
   no_panic : s.panicked = false
-  waiting : ∀ i, W (s.cl i) → s.stopped = true
+  waiting : ∀ i, R (s.cl i) → s.stopped = true
+  unique : ∀ i j, shutting (s.cl i) = true → shutting (s.cl j) = true → i = j
   ends : s.stopped = true → s.loop = .finished ∨ ∃ j, s.cl j = .waitDone
   flush : s.stopped = true → s.accAtStop ≤ s.flushed ∨ ∃ j, W (s.cl j)
+  fclosed : s.flushedClosed = true → s.stopped = true ∧ ∀ k, shutting (s.cl k) = false
+  pending : s.stopped = true → s.flushedClosed = true ∨ ∃ j, shutting (s.cl j) = true
   acc_le : s.accAtStop ≤ s.acc
   bound : ∀ i, cfg.n ≤ i → s.cl i = .idle
 
 theorem inv_init (cfg : Cfg) : Inv cfg init := by
-  refine ⟨?_, ?_, ?_, ?_, ?_, ?_, ?_, ?_, ?_, ?_, ?_, ?_, ?_⟩ <;> simp [init, W]
+  refine ⟨?_, ?_, ?_, ?_, ?_, ?_, ?_, ?_, ?_, ?_, ?_, ?_, ?_, ?_, ?_⟩ <;> simp [init, W, R]
 
-theorem waiting_upd {f : Nat → CPc} {i : Nat} {v : CPc} {st st' : Bool}
-    (h8 : ∀ k, W (f k) → st = true) (hmono : st = true → st' = true) (hv : W v → st' = true) :
-    ∀ k, W (upd f i v k) → st' = true := by
+theorem waiting_upd {R : CPc → Prop} {f : Nat → CPc} {i : Nat} {v : CPc} {st st' : Bool}
+    (h8 : ∀ k, R (f k) → st = true) (hmono : st = true → st' = true) (hv : R v → st' = true) :
+    ∀ k, R (upd f i v k) → st' = true := by
   intro k
   by_cases hk : k = i
   · subst hk; simpa using hv
@@ -127,7 +149,7 @@ theorem waiting_upd {f : Nat → CPc} {i : Nat} {v : CPc} {st st' : Bool}
 
 theorem inv_cstep (cfg : Cfg) (hc : cfg.lockedWait = false) (s s' : St) (i : Nat) (hI : Inv cfg s)
     (h : cstep cfg s i = some s') : Inv cfg s' := by
-  obtain ⟨h1, h2, h3, hsm, h4, h5, h6, h7, h8, hE, hF, h9, h10⟩ := hI
+  obtain ⟨h1, h2, h3, h4, h5, h6, h7, h8, hU, hE, hF, hC, hP, h9, h10⟩ := hI
   have hloop : inCS (s.cl i) = true → s.loop ≠ .inS := by
     intro hin hl
     have a := (h1 i).2 hin
@@ -137,34 +159,47 @@ theorem inv_cstep (cfg : Cfg) (hc : cfg.lockedWait = false) (s s' : St) (i : Nat
   split at h
   all_goals (try split at h)
   all_goals (try split at h)
+  all_goals (try split at h)
   all_goals (first | (cases h; done) | skip)
   all_goals (injection h with h; subst h)
-  all_goals (first | (exfalso; simp_all; done) | skip)
+  all_goals (first | (exfalso; rename_i hlw; rw [hc] at hlw; cases hlw; done) | skip)
   all_goals exact ⟨
     by first
       | (apply lock_acq client_inj free_ne_client h1 <;> (first | assumption | (simp [*]; done)))
       | (apply lock_rel client_inj free_ne_client h1 <;> (first | assumption | (simp [*]; done)))
-      | (apply lock_keep h1; simp [*]; done),
-    by simp_all,
-    by apply forall_upd (P := fun _ pc => pc ≠ .inTwait) h3; simp,
-    fun hs => by
-      (try simp only [hs, if_true])
-      first
-      | (exfalso; simp_all; done)
-      | (apply lock_acq some_inj none_ne_some (hsm hs) <;> (first | assumption | (simp [*]; done)))
-      | (apply lock_rel some_inj none_ne_some (hsm hs) <;> (first | assumption | (simp [*]; done)))
-      | (apply lock_keep (hsm hs); simp [*]; done),
-    by simp_all,
-    by simp_all,
-    by simp_all,
-    by simp_all,
+      | (apply lock_keep h1; simp [*]; done)
+      | (apply lock_rel client_inj free_ne_client h1 <;> (first | assumption | (simp [*]; done) | (split <;> simp; done))),
+    by clear hU hC hP hE hF; simp_all,
+    by apply forall_upd (P := fun _ pc => pc ≠ .inTwait) h3; first | (simp; done) | (split <;> simp; done),
+    by clear hU hC hP hE hF; simp_all,
+    by clear hU hC hP hE hF; simp_all,
+    by clear hU hC hP hE hF; simp_all,
     by
-      apply waiting_upd (st := s.stopped) h8
+      first
+      | (clear hU hC hP hE hF; simp_all; done)
+      | (have hfc : s.flushedClosed = false := by
+           cases hk : s.flushedClosed with
+           | false => rfl
+           | true => have := (hC hk).2 i; simp_all
+         clear hU hC hP hE hF; simp_all),
+    by
+      apply waiting_upd (R := R) (st := s.stopped) h8
       · first | exact id | (intro _; rfl)
       · first
-        | (intro hv; simp [W] at hv; done)
-        | (intro _; first | rfl | (apply h8 i; simp [W, *]; done)),
+        | (intro hv; simp [R] at hv; done)
+        | (intro _; first | rfl | (apply h8 i; simp [R, *]; done) | assumption | (clear hU hC hP hE hF; simp_all; done)),
     by
+      apply unique_upd hU
+      first
+      | (intro hv; simp at hv; done)
+      | (intro _; left; simp [*]; done)
+      | (intro hv; split at hv <;> simp at hv; done)
+      | (intro _; right; intro k
+         cases hk : shutting (s.cl k) with
+         | false => rfl
+         | true => (exfalso; have := h8 k (Or.inl hk); clear hU hC hP hE hF; simp_all)),
+    by
+      clear hU hC hP hF
       intro hs
       first
       | (left; simp_all; done)
@@ -173,6 +208,7 @@ theorem inv_cstep (cfg : Cfg) (hc : cfg.lockedWait = false) (s s' : St) (i : Nat
          · left; simp_all; done
          · right; apply exists_upd (Q := fun pc => pc = .waitDone) hx; simp [*]; done),
     by
+      clear hU hC hP hE
       intro hs
       first
       | (left; simp_all; done)
@@ -181,13 +217,45 @@ theorem inv_cstep (cfg : Cfg) (hc : cfg.lockedWait = false) (s s' : St) (i : Nat
       | (rcases hF (by simp_all) with hl | hx
          · left; simp_all; done
          · right; apply exists_upd (Q := W) hx; simp [W, *]; done),
-    by simp_all <;> omega,
+    by
+      intro hk
+      first
+      | (-- `flushed` is not closed by this step
+         have hk' : s.flushedClosed = true := hk
+         obtain ⟨hst, hns⟩ := hC hk'
+         have hni := hns i
+         clear hU hC hP hE hF
+         refine ⟨?_, ?_⟩
+         · first | exact hst | rfl
+         · apply forall_upd (P := fun _ pc => shutting pc = false) hns
+           first | (simp; done) | (split <;> simp; done) | (exfalso; simp_all; done))
+      | (-- the deferred close(s.flushed)
+         refine ⟨?_, ?_⟩
+         · apply h8 i; left; simp [*]; done
+         · intro k
+           by_cases hki : k = i
+           · subst hki; show shutting (upd s.cl k .retT k) = false; simp
+           · show shutting (upd s.cl i .retT k) = false
+             rw [upd_other _ _ hki]
+             cases hsk : shutting (s.cl k) with
+             | false => rfl
+             | true => exact absurd (hU k i hsk (by simp [*])) hki),
+    by
+      clear hU hC hE hF
+      intro hs
+      first
+      | (left; simp_all; done)
+      | (right; apply exists_self (Q := fun pc => shutting pc = true); rfl)
+      | (rcases hP (by simp_all) with hl | hx
+         · left; simp_all; done
+         · right; apply exists_upd (Q := fun pc => shutting pc = true) hx; first | (simp [*]; done) | (intro hq; simp [*] at hq)),
+    by clear hU hC hP hE hF; simp_all <;> omega,
     by
       apply forall_upd (P := fun k pc => cfg.n ≤ k → pc = .idle) h10
-      first | (intro _; rfl) | (intro hle; have := h10 i hle; simp_all; done)⟩
+      first | (intro _; rfl) | (intro hle; have := h10 i hle; clear hU hC hP hE hF; simp_all; done)⟩
 
 theorem inv_lstep (cfg : Cfg) (s s' : St) (hI : Inv cfg s) (h : lstep s = some s') : Inv cfg s' := by
-  obtain ⟨h1, h2, h3, hsm, h4, h5, h6, h7, h8, hE, hF, h9, h10⟩ := hI
+  obtain ⟨h1, h2, h3, h4, h5, h6, h7, h8, hU, hE, hF, hC, hP, h9, h10⟩ := hI
   have hcl : s.loop = .inS → ∀ k, inCS (s.cl k) = false := by
     intro hl k
     cases hk : inCS (s.cl k) with
@@ -202,9 +270,9 @@ theorem inv_lstep (cfg : Cfg) (s s' : St) (hI : Inv cfg s) (h : lstep s = some s
   all_goals (first | (cases h; done) | skip)
   all_goals (injection h with h; subst h)
   · -- select, stop closed: return (deferred close(done))
-    exact ⟨h1, by simp_all, h3, hsm, by simp_all, h5, h6, h7, h8, fun _ => Or.inl rfl, hF, h9, h10⟩
+    exact ⟨h1, by simp_all, h3, by simp_all, h5, h6, h7, h8, hU, fun _ => Or.inl rfl, hF, hC, hP, h9, h10⟩
   · -- wantS, mu free: Lock
-    refine ⟨?_, by simp_all, h3, hsm, by simp_all, h5, h6, h7, h8, ?_, hF, h9, h10⟩
+    refine ⟨?_, by simp_all, h3, by simp_all, h5, h6, h7, h8, hU, ?_, hF, hC, hP, h9, h10⟩
     · intro k
       have := h1 k
       simp_all
@@ -212,7 +280,7 @@ theorem inv_lstep (cfg : Cfg) (s s' : St) (hI : Inv cfg s) (h : lstep s = some s
       · simp_all
       · exact Or.inr hx
   · -- inS: flush, Unlock, back to the select
-    refine ⟨?_, by simp_all, h3, hsm, by simp_all, h5, h6, h7, h8, ?_, ?_, h9, h10⟩
+    refine ⟨?_, by simp_all, h3, by simp_all, h5, h6, h7, h8, hU, ?_, ?_, hC, hP, h9, h10⟩
     · intro k
       have := hcl (by assumption) k
       simp_all
@@ -222,32 +290,39 @@ theorem inv_lstep (cfg : Cfg) (s s' : St) (hI : Inv cfg s) (h : lstep s = some s
     · intro _; left; exact h9
 
 theorem inv_tick (cfg : Cfg) (s : St) (hI : Inv cfg s) (hl : s.loop = .select) : Inv cfg { s with loop := .wantS } := by
-  obtain ⟨h1, h2, h3, hsm, h4, h5, h6, h7, h8, hE, hF, h9, h10⟩ := hI
-  refine ⟨h1, by simp_all, h3, hsm, by simp_all, h5, h6, h7, h8, ?_, hF, h9, h10⟩
+  obtain ⟨h1, h2, h3, h4, h5, h6, h7, h8, hU, hE, hF, hC, hP, h9, h10⟩ := hI
+  refine ⟨h1, by simp_all, h3, by simp_all, h5, h6, h7, h8, hU, ?_, hF, hC, hP, h9, h10⟩
   intro hs; rcases hE hs with hl' | hx
   · simp_all
   · exact Or.inr hx
 
 theorem inv_start (cfg : Cfg) (s s' : St) (i : Nat) (pc : CPc) (hI : Inv cfg s)
-    (hpc : pc = .wantW ∨ pc = .wantS ∨ pc = .wantM) (h : start cfg s i pc = some s') : Inv cfg s' := by
-  obtain ⟨h1, h2, h3, hsm, h4, h5, h6, h7, h8, hE, hF, h9, h10⟩ := hI
+    (hpc : pc = .wantW ∨ pc = .wantS ∨ pc = .wantT) (h : start cfg s i pc = some s') : Inv cfg s' := by
+  obtain ⟨h1, h2, h3, h4, h5, h6, h7, h8, hU, hE, hF, hC, hP, h9, h10⟩ := hI
   unfold start at h
   split at h
   · rename_i hc
     injection h with h; subst h
     have hcs : inCS pc = false := by rcases hpc with rfl | rfl | rfl <;> rfl
-    have hhm : holdsM pc = false := by rcases hpc with rfl | rfl | rfl <;> rfl
+    have hsh : shutting pc = false := by rcases hpc with rfl | rfl | rfl <;> rfl
     have hnb : pc ≠ .inTwait := by rcases hpc with rfl | rfl | rfl <;> simp
     have hnw : ¬ W pc := by rcases hpc with rfl | rfl | rfl <;> simp [W]
+    have hnr : ¬ R pc := by rcases hpc with rfl | rfl | rfl <;> simp [R]
     refine ⟨lock_keep h1 (by simp [hc.1, hcs]), h2, forall_upd (P := fun _ pc => pc ≠ .inTwait) h3 hnb,
-      fun hs => lock_keep (hsm hs) (by simp [hc.1, hhm]), h4, h5, h6, h7,
-      waiting_upd (st := s.stopped) h8 id (fun hv => absurd hv hnw), ?_, ?_, h9, ?_⟩
+      h4, h5, h6, h7,
+      waiting_upd (R := R) (st := s.stopped) h8 id (fun hv => absurd hv hnr),
+      unique_upd hU (fun hv => by rw [hsh] at hv; cases hv), ?_, ?_, ?_, ?_, h9, ?_⟩
     · intro hs; rcases hE hs with hl | hx
       · exact Or.inl hl
       · exact Or.inr (exists_upd (Q := fun pc => pc = .waitDone) hx (by simp [hc.1]))
     · intro hs; rcases hF hs with hl | hx
       · exact Or.inl hl
       · exact Or.inr (exists_upd (Q := W) hx (by simp [hc.1, W]))
+    · intro hk
+      exact ⟨(hC hk).1, forall_upd (P := fun _ pc => shutting pc = false) (hC hk).2 hsh⟩
+    · intro hs; rcases hP hs with hl | hx
+      · exact Or.inl hl
+      · exact Or.inr (exists_upd (Q := fun pc => shutting pc = true) hx (by simp [hc.1]))
     · apply forall_upd (P := fun k pc => cfg.n ≤ k → pc = .idle) h10
       intro hle; exact absurd hc.2 (Nat.not_lt.mpr hle)
   · cases h
@@ -281,6 +356,39 @@ theorem inv_reach (cfg : Cfg) (hc : cfg.lockedWait = false) (s : St) (h : Reach 
   obtain ⟨acts, ha⟩ := h
   exact inv_run cfg hc acts _ _ (inv_init cfg) ha
 
+/-! ### what a returning `Stop` can rely on -/
+
+/-- once `flushed` is closed the shutdown is complete: the flush goroutine has returned and everything accepted
+    before the shutdown was signalled has been flushed -/
+theorem flushedClosed_done (cfg : Cfg) (s : St) (hI : Inv cfg s) (hk : s.flushedClosed = true) :
+    s.stopped = true ∧ s.accAtStop ≤ s.flushed ∧ s.loop = .finished := by
+  obtain ⟨hst, hns⟩ := hI.fclosed hk
+  refine ⟨hst, ?_, ?_⟩
+  · rcases hI.flush hst with h | ⟨j, hj⟩
+    · exact h
+    · have := hns j
+      rcases hj with hj | hj | hj <;> simp [hj] at this
+  · rcases hI.ends hst with h | ⟨j, hj⟩
+    · exact h
+    · have := hns j
+      simp [hj] at this
+
+/-- in the repaired protocol a `Stop` call reaches its return on a stopped syncer only after `flushed` was closed -/
+theorem ret_flushedClosed (cfg : Cfg) (hw : cfg.waitFlushed = true) (s s' : St) (i : Nat) (hI : Inv cfg s)
+    (h : cstep cfg s i = some s') (hret : s'.cl i = .retT) (hst : s'.stopped = true) : s'.flushedClosed = true := by
+  have h5 := hI.stopped_init
+  unfold cstep at h
+  split at h
+  all_goals (try split at h)
+  all_goals (try split at h)
+  all_goals (try split at h)
+  all_goals (first | (cases h; done) | skip)
+  all_goals (injection h with h; subst h)
+  all_goals (first | (simp at hret; done) | skip)
+  all_goals (first | rfl | assumption | skip)
+  -- left: inT on a syncer that is not initialised (then not stopped either) / already stopped (the repaired code waits)
+  all_goals (have := h5 hst; simp_all)
+
 /-! ### reachability is closed under steps; clients beyond `cfg.n` never start (any variant) -/
 
 theorem runActs_append (cfg : Cfg) (a b : List Act) : ∀ s, runActs cfg s (a ++ b) =
@@ -312,6 +420,7 @@ theorem cstep_cl (cfg : Cfg) (s s' : St) (i : Nat) (h : cstep cfg s i = some s')
     ∃ v, s'.cl = upd s.cl i v := by
   unfold cstep at h
   split at h
+  all_goals (try split at h)
   all_goals (try split at h)
   all_goals (try split at h)
   all_goals (first | (cases h; done) | skip)
@@ -375,31 +484,31 @@ theorem cstep_some_cs (cfg : Cfg) (s : St) (i : Nat) (h : inCS (s.cl i) = true) 
   all_goals (try rfl)
   split
   · rfl
-  · split <;> rfl
+  · split
+    · rfl
+    · split <;> rfl
 
 theorem cstep_some_want (cfg : Cfg) (s : St) (i : Nat) (hf : s.mu = .free)
     (h : s.cl i = .wantW ∨ s.cl i = .wantS ∨ s.cl i = .wantT ∨ s.cl i = .wantF) : (cstep cfg s i).isSome = true := by
   rcases h with h | h | h | h <;> simp [cstep, h, hf]
 
-theorem cstep_some_relM (cfg : Cfg) (s : St) (i : Nat) (h : s.cl i = .relM) : (cstep cfg s i).isSome = true := by
-  simp [cstep, h]
+theorem cstep_some_ret (cfg : Cfg) (s : St) (i : Nat) (h : s.cl i = .closeF ∨ s.cl i = .retT) :
+    (cstep cfg s i).isSome = true := by
+  rcases h with h | h <;> simp [cstep, h]
 
 theorem cstep_some_waitDone (cfg : Cfg) (s : St) (i : Nat) (h : s.cl i = .waitDone) (hl : s.loop = .finished) :
     (cstep cfg s i).isSome = true := by
   simp [cstep, h, hl]
 
-theorem cstep_some_wantM (cfg : Cfg) (s : St) (i : Nat) (h : s.cl i = .wantM)
-    (hm : cfg.serialStop = false ∨ s.smu = none) : (cstep cfg s i).isSome = true := by
-  simp only [cstep, h]
-  rcases hm with hm | hm
-  · simp [hm]
-  · split <;> simp [hm]
+theorem cstep_some_waitFlushed (cfg : Cfg) (s : St) (i : Nat) (h : s.cl i = .waitFlushed) (hl : s.flushedClosed = true) :
+    (cstep cfg s i).isSome = true := by
+  simp [cstep, h, hl]
 
 /-- **progress**: in every reachable state of the repaired protocol that is not quiescent, some goroutine can take a
     step without any new call or tick arriving -/
 theorem progress (cfg : Cfg) (hc : cfg.lockedWait = false) (s : St) (hI : Inv cfg s) (hq : ¬ Quiescent s) :
     ∃ a, a.internal = true ∧ (step cfg s a).isSome = true := by
-  obtain ⟨h1, h2, h3, hsm, h4, h5, h6, h7, h8, hE, hF, h9, h10⟩ := hI
+  obtain ⟨h1, h2, h3, h4, h5, h6, h7, h8, hU, hE, hF, hC, hP, h9, h10⟩ := hI
   cases hmu : s.mu with
   | client i =>
     exact ⟨.client i, rfl, cstep_some_cs cfg s i ((h1 i).1 hmu) (h3 i)⟩
@@ -432,9 +541,9 @@ theorem progress (cfg : Cfg) (hc : cfg.lockedWait = false) (s : St) (hI : Inv cf
     by_cases hw : ∃ k, s.cl k = .wantW ∨ s.cl k = .wantS ∨ s.cl k = .wantT ∨ s.cl k = .wantF
     · obtain ⟨k, hk⟩ := hw
       exact ⟨.client k, rfl, cstep_some_want cfg s k hmu hk⟩
-    by_cases hr : ∃ k, s.cl k = .relM
+    by_cases hr : ∃ k, s.cl k = .closeF ∨ s.cl k = .retT
     · obtain ⟨k, hk⟩ := hr
-      exact ⟨.client k, rfl, cstep_some_relM cfg s k hk⟩
+      exact ⟨.client k, rfl, cstep_some_ret cfg s k hk⟩
     have hnocs : ∀ k, inCS (s.cl k) = false := by
       intro k
       cases hk : inCS (s.cl k) with
@@ -442,7 +551,7 @@ theorem progress (cfg : Cfg) (hc : cfg.lockedWait = false) (s : St) (hI : Inv cf
       | true => have := (h1 k).2 hk; rw [hmu] at this; cases this
     by_cases hwd : ∃ k, s.cl k = .waitDone
     · obtain ⟨k, hk⟩ := hwd
-      have hst := h8 k (Or.inl hk)
+      have hst := h8 k (Or.inl (by simp [hk]))
       have hcl : s.stopClosed = true := by rw [h6]; exact hst
       have hin := h5 hst
       have hlf : s.loop = .finished := by
@@ -453,9 +562,9 @@ theorem progress (cfg : Cfg) (hc : cfg.lockedWait = false) (s : St) (hI : Inv cf
         | inS => exact absurd hl hli
         | finished => rfl
       exact ⟨.client k, rfl, cstep_some_waitDone cfg s k hk hlf⟩
-    -- every client in a call is waiting for stopMu, which nobody holds
+    -- every client in a call is waiting for `flushed`, and the shutting-down Stop has closed it
     obtain ⟨i, hi⟩ := hne
-    have hwm : ∀ k, s.cl k = .idle ∨ s.cl k = .wantM := by
+    have hwm : ∀ k, s.cl k = .idle ∨ s.cl k = .waitFlushed := by
       intro k
       have a := hnocs k
       have b := h3 k
@@ -465,21 +574,18 @@ theorem progress (cfg : Cfg) (hc : cfg.lockedWait = false) (s : St) (hI : Inv cf
       · exact hw ⟨k, Or.inr (Or.inr (Or.inl hk))⟩
       · exact hwd ⟨k, hk⟩
       · exact hw ⟨k, Or.inr (Or.inr (Or.inr hk))⟩
-      · exact hr ⟨k, hk⟩
-    have him : s.cl i = .wantM := by
+      · exact hr ⟨k, Or.inl hk⟩
+      · exact hr ⟨k, Or.inr hk⟩
+    have him : s.cl i = .waitFlushed := by
       rcases hwm i with h | h
       · exact absurd h hi
       · exact h
-    refine ⟨.client i, rfl, cstep_some_wantM cfg s i him ?_⟩
-    cases hss : cfg.serialStop with
-    | false => exact Or.inl rfl
-    | true =>
-      right
-      cases hsmu : s.smu with
-      | none => rfl
-      | some j =>
-        have := (hsm hss j).1 hsmu
-        rcases hwm j with h | h <;> simp [h] at this
+    have hst := h8 i (Or.inr him)
+    have hfc : s.flushedClosed = true := by
+      rcases hP hst with h | ⟨j, hj⟩
+      · exact h
+      · rcases hwm j with h | h <;> simp [h] at hj
+    exact ⟨.client i, rfl, cstep_some_waitFlushed cfg s i him hfc⟩
 
 /-! ### termination: steps that need nothing from outside cannot go on for ever -/
 
@@ -488,7 +594,8 @@ def wc : CPc → Nat
   | .idle => 0
   | .inS => 1 | .wantS => 2
   | .inW => 2 | .wantW => 3
-  | .relM => 1 | .inF => 2 | .wantF => 3 | .waitDone => 4 | .inTwait => 4 | .inT => 5 | .wantT => 6 | .wantM => 7
+  | .retT => 1 | .closeF => 2 | .waitFlushed => 2 | .inF => 3 | .wantF => 4 | .waitDone => 5 | .inTwait => 5
+  | .inT => 6 | .wantT => 7
 
 /-- … and of the flush goroutine until it is back in its `select` (plus one for leaving it) -/
 def wl : LPc → Nat
@@ -548,6 +655,7 @@ theorem cstep_decreases (cfg : Cfg) (s s' : St) (i : Nat) (hI : Inv cfg s) (h : 
   have hle := wc_le_sumW s.cl i cfg.n hlt
   unfold cstep at h
   split at h
+  all_goals (try split at h)
   all_goals (try split at h)
   all_goals (try split at h)
   all_goals (first | (cases h; done) | skip)
